@@ -47,6 +47,9 @@ def strategy_(draw, tier):
             "fn_paths": fn_paths, "uid": draw(st.sampled_from([1000, 0, 70000])),
             "spell": draw(st.sampled_from(["abs", "abs", "rel", "rel", "slash", "slash", "deepcwd"])),
             "tz": draw(st.sampled_from([None, None, 9, -8, 5.5])),
+            # the mount point's own path occurs again deeper inside the location (a backup / mirror
+            # of the volume kept on the volume)
+            "mirror": draw(st.integers(0, 5)) == 0,
             # the mount point's own name may contain what looks like an escape, blanks, non-ASCII
             "vol": draw(st.sampled_from(["/vol", "/vol", "/vol", "/media/usb%41", "/mnt/my disk",
                                          "/mnt/d\u00efsk%2F", "/v%"]))}
@@ -76,6 +79,8 @@ def run_case(case):
     d = base
     if case["spell"] == "deepcwd":   # a location deeper than PATH_MAX, named relative to the cwd
         d = d + "".join("/%02d" % j + "d" * 240 for j in range(17))
+    if case.get("mirror") and case["tkind"] != "home":
+        d = d + V
     for c in case["comps"][:-1]:
         d = d + "/" + c
     e = d + "/" + case["comps"][-1]
